@@ -98,7 +98,11 @@ theorem select_did (s : Selecting) (sh : Shared D L) (n : Nat) :
         split
         · rename_i sym y' hq
           exact OutAll.map (hfin sh sym rfl (fun p hp => by rw [hy] at hp; cases hp))
-        · exact hnone
+        · split
+          · exact hnone.inner (selPop_inner _)
+          · exact hnone
+          · trivial
+          · trivial
         · trivial
         · trivial
       · -- special
@@ -291,12 +295,19 @@ private theorem api_openPhrase (sh : Shared D L) : EStep [.none] sh.com (openPhr
   · exact api_newPhrase env sh sh' t h1
   · exact did_none (by simp) ((selPop_inner _).trans (selClamp_inner _))
 
+private theorem api_openSpecialSymbol (sh : Shared D L) (sym : Sym) :
+    EStep [.none] sh.com (openSpecialSymbol env sh sym) := by
+  intro sh' t h
+  rcases openSpecialSymbol_cases env h with ⟨h1, _⟩ | ⟨_, rfl⟩
+  · exact api_newSpecialSymbol sh sym sh' t h1
+  · exact did_none (by simp) ((selPop_inner _).trans (selClamp_inner _))
+
 private theorem api_startSelecting (sh : Shared D L) : EStep [.none] sh.com (startSelecting env sh) := by
   unfold startSelecting
   repeat' split
   all_goals first
     | exact api_openPhrase env _
-    | exact api_newSpecialSymbol _ _
+    | exact api_openSpecialSymbol env _ _
     | estep_leaf (did_none (by simp) rfl)
 
 /-- `Editor::start_selecting` only saves / clamps / restores the cursor -/
